@@ -10,6 +10,7 @@ import (
 	"github.com/tink-crypto/tink-go/v2/aead/aesgcm"
 	"github.com/tink-crypto/tink-go/v2/insecurecleartextkeyset"
 	"github.com/tink-crypto/tink-go/v2/insecuresecretdataaccess"
+	"github.com/tink-crypto/tink-go/v2/internal/internalapi"
 	"github.com/tink-crypto/tink-go/v2/key"
 	"github.com/tink-crypto/tink-go/v2/keyset"
 	"github.com/tink-crypto/tink-go/v2/secretdata"
@@ -185,6 +186,32 @@ func c11Run(in string) string {
 				idres(km.AddNewKeyFromParameters(c11Key(7, true, 0).Parameters()))
 			case op == "PR":
 				idres(km.AddNewKeyFromParameters(c11Key(0, false, 0).Parameters()))
+			case op[0] == 'O':
+				// O<req|R>:<opt>,...   the internal API AddKeyWithOpts
+				f2 := strings.SplitN(op[1:], ":", 2)
+				var k key.Key
+				if f2[0] == "R" {
+					k = c11Key(0, false, fill)
+				} else {
+					v, _ := strconv.ParseUint(f2[0], 10, 32)
+					k = c11Key(uint32(v), true, fill)
+				}
+				var opts []keyset.KeyOpts
+				for _, o := range strings.Split(f2[1], ",") {
+					if o == "" {
+						continue
+					}
+					switch o[0] {
+					case 's':
+						opts = append(opts, keyset.WithStatus(map[string]keyset.KeyStatus{"E": keyset.Enabled, "D": keyset.Disabled, "X": keyset.Destroyed, "U": keyset.Unknown}[o[1:]]))
+					case 'f':
+						v, _ := strconv.ParseUint(o[1:], 10, 32)
+						opts = append(opts, keyset.WithFixedID(uint32(v)))
+					case 'p':
+						opts = append(opts, keyset.AsPrimary())
+					}
+				}
+				idres(km.AddKeyWithOpts(k, internalapi.Token{}, opts...))
 			case op == "KR":
 				idres(km.AddKey(c11Key(0, false, fill)))
 			case op[0] == 'K':
@@ -304,6 +331,9 @@ func c11Check(in, obs string) string {
 			if ops[i][0] == 'S' && r == "ok" {
 				primarySeen = true
 			}
+			if ops[i][0] == 'O' && strings.HasPrefix(r, "ok") && (strings.Contains(ops[i], ":p") || strings.Contains(ops[i], ",p")) {
+				primarySeen = true
+			}
 			if ops[i] == "H" && r == "err" && primarySeen {
 				return fmt.Sprintf("op %d Handle() failed although a primary was set", i)
 			}
@@ -386,6 +416,30 @@ func c11Gen(r *hx.Rng, n int, tier string) []string {
 			switch x := r.Intn(100); {
 			case x < 14:
 				ops = append(ops, hx.PickS(r, []string{"AT", "AT", "AR", "AN", "AU", "AB", "PT", "PR"}))
+			case x < 19 && r.Chance(60):
+				// AddKeyWithOpts with a random option list in random order
+				req := "R"
+				var id uint32
+				if r.Chance(60) {
+					id = pickID()
+					req = strconv.FormatUint(uint64(id), 10)
+				}
+				var os []string
+				for j := r.Intn(4); j > 0; j-- {
+					switch r.Intn(3) {
+					case 0:
+						os = append(os, "s"+hx.PickS(r, []string{"E", "D", "X", "D", "U"}))
+					case 1:
+						fid := pickID()
+						if req != "R" && r.Chance(70) {
+							fid = id
+						}
+						os = append(os, "f"+strconv.FormatUint(uint64(fid), 10))
+					default:
+						os = append(os, "p")
+					}
+				}
+				ops = append(ops, "O"+req+":"+strings.Join(os, ","))
 			case x < 24:
 				if r.Chance(25) {
 					ops = append(ops, "KR")
